@@ -1,7 +1,7 @@
 /* UNIT
 {
  "id": "EXPR.cast",
- "file": "expr.c", "function": "castexpr", "also_functions": ["postfixexpr", "decay", "mkunaryexpr", "mkexpr"],
+ "file": "expr.c", "function": "castexpr", "also_functions": ["postfixexpr", "decay", "mkunaryexpr", "mkexpr", "castcheck"],
  "properties": {"C05": "contract", "C10": "contract", "C19": "safety"},
  "mode": "harness",
  "replace_calls": {"unaryexpr": "stub_unaryexpr", "expr": "stub_expr"}, "replay": false,
